@@ -25,6 +25,8 @@ CHECKS = {
             "PARTIAL w.r.t. the runtime as C13", "5 C14, 2.9"),
     "C19": ("Lean theorems over the client LTS: a write needs the send lock, in every accepted trace each message's packets form one contiguous block in encoder order, an unsendable message is a no-op on the state, a failing write records a fault that enables DISCONNECTED; trace validation with concurrent sends, scripted drain() suspensions, write/drain failures at each packet and really unencodable messages through the real encoder",
             "PARTIAL w.r.t. the runtime as C13", "5 C19, 2.9"),
+    "C15": ("Lean theorems over the JSON data model of to_json/from_json: header and addressing survive, fields keep id and the JSON view of value/raw (binary as hex, dates/times as ISO text), plain values are exact, what each encoder kind reads of a field is preserved (so the parsed message re-encodes to the same bytes), and the dump log is exactly the matching returned messages in order for every history; correspondence: the model's tree vs json.loads(msg.to_json()) for messages of every definition, dump counts in histories; monitors: from_json(to_json(m)) re-encodes identically, dump file content",
+            "PARTIAL: orjson's text layer is a trusted parameter; NaN/inf -> null is a recorded known finding", "5 C15"),
     "C16": ("Lean theorems over the decoder model: a single-frame probe's result depends only on configuration, input and source identity; ignored/rejected input leaves reassembly table and source map untouched; fast frames touch only their own stream; a complete fast-packet message with a fresh counter decodes, after ANY history, to what its pre-assembled payload decodes to (also the frame-wise = pre-assembled clause of C07); isolation between live instances is VALIDATED by multi-instance correspondence",
             "isolation proper rests on T3 (several real decoders/encoders alive, each compared with its own model instance), not on a theorem", "5 C16"),
     "C17": ("Lean theorems over Dec.hashKey: key = id and primary-key raws only (congruence), unit preferences and everything else irrelevant, no hash with mapping off, key injective for underscore-free ids and integer keys; kernel-checked database facts (no id contains '_', primary-key kinds) and the C01 tables pinning the primary-key flags; correspondence hashes the model's key with hashlib and compares digests",
